@@ -77,6 +77,13 @@ type Obligation struct {
 	vc      *VC
 	Callee  string
 	MustFail bool
+	// Witnesses: ground instances of a quantified goal (e.g. the frame goal at the receiver and pointer parameters). They are
+	// extra queries, not obligations: when the goal itself gets no answer and a witness is refuted (sat), the obligation is
+	// refuted with that model.
+	Witnesses []*Obligation
+	// NotExcluded: a frame obligation (an undeclared write) for which a ground witness at the receiver / a pointer
+	// parameter could not be discharged either: the write cannot be excluded from objects that existed at entry
+	NotExcluded bool
 }
 
 type VC struct {
